@@ -79,7 +79,8 @@ func (h *harness) guard(lo, hi uint64, key string, mk func(i uint64) art, body f
 		func() {
 			defer func() {
 				if p := recover(); p != nil {
-					h.fail(key+":panic", fmt.Sprintf("panic: %v", p), mk(i))
+					a := mk(i)
+					h.fail(key+":panic", fmt.Sprintf("panic: %v (input %s%v)", p, a.Hex, a.I64), a)
 					ok = false
 					i++
 				}
